@@ -85,7 +85,7 @@ def cases(draw):
     seed_pts = draw(st.lists(pts, min_size=1, max_size=5))
     ops = [["insert_multiple", seed_pts, 0, "asis", "db", None, "m1"]] + draw(st.lists(setup_one, max_size=4)) + [draw(target)]
     return {"ops": ops, "auto_index": draw(st.booleans()), "reads": draw(st.lists(st.integers(0, len(READ_Q) - 1), min_size=2, max_size=4)), "after_insert": draw(pts), "after_rewrite": draw(st.integers(0, len(REWRITES) - 1)), "pick": draw(st.integers(0, 10**6)), "prime": draw(st.booleans()),
-            "access_mode": draw(st.sampled_from([None, None, None, "w+"]))}
+            "access_mode": draw(st.sampled_from([None, None, None, "w+"])), "early": draw(st.sampled_from([None, None, None, None, "remove_all"]))}
 
 
 class _R:
@@ -370,8 +370,18 @@ def run_fault(case, k, when, events, s0, ctx, acc):
                         raise Violation("wrong-exception", fcase, "%s: the caller sees %s(%s) with no OSError behind it" % (where, type(e).__name__, str(e)[:150]))
                 w.fault_at = None  # single fault per execution
                 acc.ev()
-                # (2) file right after the exception
                 possible = [s for i, s in enumerate(states) if s not in states[:i]]
+                if case.get("early") == "remove_all":
+                    # the very next call after the failure - before anything has read the database - empties it: whatever the
+                    # failed operation left in a buffer must not come back afterwards
+                    try:
+                        db.remove_all()
+                        possible = [[]]
+                        acc.cls("early_remove_all_ok")
+                    except Exception:
+                        possible = possible + [[]]
+                        acc.cls("early_remove_all_raises")
+                # (2) file right after the exception
                 self_check_file(path, possible, fcase, where + ", right after the exception")
                 # (3) live object
                 own = consistent_reads(db, case, info, acc, path)
@@ -480,7 +490,7 @@ def run_shard(spec, ctx):
 
 def minimize(v, ctx, budget=40):
     """Drop setup operations while the same kind of failure remains (any fault position)."""
-    base = {k: v.case[k] for k in ("ops", "auto_index", "reads", "after_insert", "after_rewrite", "pick", "prime", "access_mode") if k in v.case}
+    base = {k: v.case[k] for k in ("ops", "auto_index", "reads", "after_insert", "after_rewrite", "pick", "prime", "access_mode", "early") if k in v.case}
     ops = list(base["ops"])
     best = v
     i = 0
@@ -502,7 +512,7 @@ def minimize(v, ctx, budget=40):
 
 
 def replay(sub, case, ctx):
-    base = {k: case[k] for k in ("ops", "auto_index", "reads", "after_insert", "after_rewrite", "pick", "prime", "access_mode") if k in case}
+    base = {k: case[k] for k in ("ops", "auto_index", "reads", "after_insert", "after_rewrite", "pick", "prime", "access_mode", "early") if k in case}
     if "fault_step" in case:
         events, s0, s1 = record(base, ctx)
         k = case["fault_step"]
